@@ -143,6 +143,11 @@ TStore ==
             /\ UNCHANGED <<run, ign, expv, div>>
        ELSE Diverge("store")
 
+\* any other atomic operation (swap, compare-exchange, ...) is not a step of this model: the code was restructured
+TAtomicOther ==
+  /\ IsEvent("A") /\ ~ign /\ E.op \notin {"fa", "ld", "st"}
+  /\ Diverge("atomic")
+
 TVisit ==
   /\ IsEvent("Visit") /\ ~ign
   /\ IF expv[E.t] # << >> /\ Head(expv[E.t]) = E.val
@@ -181,7 +186,7 @@ TInit ==
   /\ div = {}
   /\ cnt = <<0, 0, 0>>
 
-TNext == TReset \/ TIgnored \/ TOther \/ TDropElem \/ TMem \/ TStop \/ TCall \/ TFetchAdd \/ TLoad \/ TStore \/ TVisit \/ TRet
+TNext == TReset \/ TIgnored \/ TOther \/ TDropElem \/ TMem \/ TStop \/ TCall \/ TFetchAdd \/ TLoad \/ TStore \/ TAtomicOther \/ TVisit \/ TRet
 
 TSpec == TInit /\ [][TNext]_allvars
 
